@@ -39,6 +39,38 @@ def cases(draw):
     return {"spec": sp, "picks": picks, "sample_seed": sample_seed}
 
 
+@st.composite
+def bottleneck_cases(draw):
+    """exactly one component has a finite INTEGER throughput (so the latency is a single raw expression with
+    rational coefficients rather than a Max of several), with and without a spatial fanout"""
+    wl = draw(G.workloads(shapes=("matmul", "matvec", "elementwise", "chain2"), bound_pool=[2, 3, 4, 4, 6, 8], max_ops=800))
+    bits = list(wl["bits"].values())[0]
+    fused = len(wl["einsums"]) > 1
+    who = draw(st.sampled_from(["MAC", "MAC", "GLB", "Main"]))
+    tp = draw(st.sampled_from([3, 5, 7, 6]))
+    sizes = G.tensor_sizes(wl)
+    tot = sum(sizes.values())
+
+    def rw(name):
+        return [1, tp if who == name else "inf"]
+
+    nodes = [{"type": "Memory", "name": "Main", "size": "inf", "keep": "~Intermediates" if fused else "All", "may_keep": "All",
+              "read": [4, rw("Main")[1]], "write": [4, rw("Main")[1]], "leak": draw(st.sampled_from([0, 0.5]))},
+             {"type": "Memory", "name": "GLB", "size": draw(st.sampled_from(["inf", tot * bits + bits / 2])),
+              "keep": "~Main" if fused else "Nothing", "may_keep": "All", "read": rw("GLB"), "write": rw("GLB"),
+              "leak": draw(st.sampled_from([0, 0.25]))}]
+    if draw(st.booleans()):
+        nodes.append({"type": "Container", "name": "PEs", "spatial": [{"name": "X", "fanout": draw(st.sampled_from([2, 4]))}]})
+        nodes.append({"type": "Memory", "name": "Reg", "size": "inf", "keep": "Nothing", "may_keep": "All",
+                      "read": [0.5, "inf"], "write": [0.5, "inf"], "leak": 0})
+    nodes.append({"type": "Compute", "name": "MAC", "compute": [1, tp if who == "MAC" else "inf"], "leak": 0})
+    sp = dict(wl)
+    sp["nodes"] = nodes
+    sp["mapper"] = {"metrics": "ENERGY|LATENCY"}
+    return {"spec": sp, "picks": draw(st.lists(st.integers(0, 10_000), min_size=3, max_size=5, unique=True)),
+            "sample_seed": draw(st.integers(0, 2**16)), "bottleneck": who}
+
+
 def _tree(job_mapping, row):
     tree = []
     for n in job_mapping.nodes:
@@ -50,6 +82,10 @@ def _tree(job_mapping, row):
         elif k == "Temporal":
             ts = n.tile_shape
             tree.append({"k": "loop", "rv": n.rank_variable, "tile": ts if isinstance(ts, int) else int(row[str(ts)])})
+        elif k == "Spatial":
+            ts = n.tile_shape
+            tree.append({"k": "spatial", "rv": n.rank_variable, "tile": ts if isinstance(ts, int) else int(row[str(ts)]),
+                         "name": n.name, "component": n.component})
         elif k == "Compute":
             tree.append({"k": "compute", "einsum": n.einsum, "level": n.component})
         elif k == "Reservation":
@@ -108,6 +144,7 @@ def check_template(job, desc, col):
         idx = sorted(keep)
     f_usage = {k: sympy.lambdify(symbols, sympy.sympify(v), "math") for k, v in pmu.items()}
     f_act = {k: sympy.lambdify(symbols, sympy.sympify(v), "math") for k, v in adf.items()}
+    f_spatial = {k: sympy.lambdify(symbols, sympy.sympify(v), "math") for k, v in udf.items()}
     spec = G.build_spec(desc["spec"], apply_mapper=False)
     E = job.einsum_name
     SEP = "<SEP>"
@@ -119,7 +156,9 @@ def check_template(job, desc, col):
         args = [assign[s] for s in names]
         nontrivial = len(names) >= 2 and any(v != 1 for v in assign.values())
         col.case([desc["spec"], tmpl, assign], nontrivial,
-                 [f"symbols:{min(len(names), 4)}", "exhaustive" if n <= 300 else "sampled"],
+                 [f"symbols:{min(len(names), 4)}", "exhaustive" if n <= 300 else "sampled",
+                  "spatial_template" if "S-" in tmpl else "temporal_template",
+                  "single_bottleneck:" + desc["bottleneck"] if desc.get("bottleneck") else "several_finite_throughputs"],
                  sample={"template": tmpl, "assignment": assign, "n_assignments": n,
                          "symbolic": {c: float(row[c]) for c in df.columns if c.startswith("Total")}})
         sym_usage = {}
@@ -132,6 +171,8 @@ def check_template(job, desc, col):
         for k, f in f_usage.items():
             mem = k.split(SEP)[2]
             lim[mem] = max(lim.get(mem, 0.0), float(f(*args)))
+        for k, f in f_spatial.items():          # spatial fanout usage formulas (limited to <= 1 as well)
+            lim[k] = float(f(*args))
         sym_over = any(v > 1 + 1e-6 for v in lim.values())
         sym_exact = any(abs(v - 1) <= 1e-6 for v in lim.values())
         spec.mapping = GM.to_af_mapping(_tree(jj.mapping, row))
@@ -219,6 +260,7 @@ def shards(tier, seed):
 
 def run_shard(shard, col):
     drive(cases(), check, n=shard["n"], seed=hash32(shard["seed"], "C07", shard["k"]), col=col)
+    drive(bottleneck_cases(), check, n=shard["n"], seed=hash32(shard["seed"], "C07b", shard["k"]), col=col)
 
 
 def replay(desc, col):
